@@ -134,8 +134,11 @@ def allclose1 (x : Rat) : Bool := decide ((x - 1).abs ≤ (1 : Rat) / 100000000 
 /-- `np.isclose(x, 0.0)`: `|x| ≤ atol` -/
 def isclose0 (x : Rat) : Bool := decide (x.abs ≤ (1 : Rat) / 100000000)
 
-/-- `is_pure(rho)`: `np.allclose(np.real(np.trace(rho @ rho)), 1.0)` -/
-def isPure (ρ : Mat) : Bool := allclose1 (ρ.mul ρ).trace.re
+/-- `np.allclose(x, 1.0, rtol=0.0, atol=1e-10)`: `|x - 1| ≤ 1e-10` -/
+def allclose1Tight (x : Rat) : Bool := decide ((x - 1).abs ≤ (1 : Rat) / 10000000000)
+
+/-- `is_pure(rho)`: `np.allclose(np.real(np.trace(rho @ rho)), 1.0, rtol=0.0, atol=1e-10)` -/
+def isPure (ρ : Mat) : Bool := allclose1Tight (ρ.mul ρ).trace.re
 
 /-- exact positive-semidefiniteness of a Hermitian matrix by symmetric elimination (`LDL†`): every pivot is `≥ 0`, and a
     zero pivot must have a zero row.  The code's `is_psd` runs a floating-point Cholesky of `rho + 1e-15·I`; the model
@@ -251,9 +254,10 @@ def applyChannel (ρ : Mat) (ks : List SMat) : Except Err Mat :=
 /-- measurement determinism: forced 0, forced 1 (probabilistic draws are scripted by the harness as forced) -/
 abbrev Det := Bool
 
-/-- `DensityMatrix.apply_measurement(projectors, determinism)`: `(state, outcome)`; the state is divided by the
-    (unnormalised) probability `tr(ρ m)` of the chosen outcome — `nan` when that probability is 0 (numpy yields a
-    NaN matrix without raising) -/
+/-- `DensityMatrix.apply_measurement(projectors, determinism)`: `(state, outcome)`.  The projected state is divided by the
+    *conditional* probability `probs[outcome] / Σ probs` of the chosen outcome, so a sub-normalised state (photon loss) keeps
+    its trace; for a state of trace 0 the divisor is 1.  `none` = the inf/NaN matrix numpy produces if that conditional
+    probability is 0 (only possible when the other outcome's probability is below the `isclose` threshold). -/
 def applyMeasurement (ρ : Mat) (p0 p1 : Mat) (det : Det) : Except Err (Option Mat × Bool) :=
   if ρ.n ≠ p0.n then .error .value
   else
@@ -262,7 +266,8 @@ def applyMeasurement (ρ : Mat) (p0 p1 : Mat) (det : Det) : Except Err (Option M
     let q1 := pr p1
     let outcome : Bool := if det then !isclose0 q1 else isclose0 q0
     let m := if outcome then p1 else p0
-    let norm := if outcome then q1 else q0
+    let total := q0 + q1
+    let norm : Rat := if 0 < total then (if outcome then q1 else q0) / total else 1
     if norm = 0 then .ok (none, outcome)
     else .ok (some (Mat.smul (1 / norm) (Mat.conjBy m ρ)).norm, outcome)
 
